@@ -160,16 +160,18 @@ pub fn c16(tier: &str) -> i32 {
     let listed: Vec<String> = f.ids_for("C16").into_iter().collect();
     let g = |name: &str, chunk: u64, what: &str| FlatGroup { name: name.into(), size: stmt::group_size(name, thorough), chunk, what: what.into() };
     let groups = vec![
-        g("bytes-le2", 2048, "ALL strings of length <= 2 over the 256 byte values (as characters U+0000..U+00FF)"),
-        g("symbols", 1024, "all strings of length <= 3 (thorough: 4) over 24 symbols: quotes, parentheses, operators, digits, a letter, NUL, U+0080, U+00FF, space"),
-        g("tokens", 1024, "all token sequences of length <= 3 (thorough: 4) over a 58-token vocabulary (statement keywords, one table, two columns, literals, punctuation)"),
-        g("mutations", 256, "every token-prefix, single-token deletion, duplication and substitution by each vocabulary token of 20 valid statements"),
-        g("nesting", 1, "parentheses, NOT, unary minus, +, AND, IN-list, VALUES-list and sub-select nesting to depth 1..20000"),
-        g("typed-arith", 512, "every ordered pair of 17 operands (a column of each SQL type INT, BIGINT, UINT, BIGUINT, FLOAT, DOUBLE, TEXT, BOOLEAN and literals 0, 1, -1, 0.0, 2.5, NULL, 'a', 2147483647, 9223372036854775807) under + - * / % = < >= plus unary minus, ABS and SUM/AVG of every operand, in the select list and in WHERE, against each of 6 rows (zeros, ones, negatives, NULLs, the largest and the smallest value of every numeric type)"),
-        g("like-patterns", 256, "every LIKE pattern of length <= 4 over { %, _, \\%, \\_, \\\\, a, b } (plain, and negated up to length 3) against nine short texts with and without the special characters and NULL: each must come back"),
-        g("long-names", 512, "failing statements whose error text echoes a table / column name of every length 1..300 made of 1-, 2-, 3- or 4-byte letters after 0-3 ASCII characters, and 100-1000-letter non-ASCII string literals and tokens"),
+        // cheapest and most specific groups first: if the wall-clock cap is reached on a slow machine, what is cut is the
+        // tail of the largest, least specific enumeration (reported as such in the evidence)
         g("typed", 8, "81 well-formed statements with wrong types, unknown names, zero divisors, NULL arguments, arity errors, HAVING/CASE/sub-queries, 1 MiB literals, against 3 schemas (plain, UNIQUE key, NOT NULL columns): result + probe + data unchanged after an error"),
         g("typed-session", 4, "the same statements at every position (before, between, after) of a three-statement session that must keep working and commit"),
+        g("nesting", 1, "parentheses, NOT, unary minus, +, AND, IN-list, VALUES-list and sub-select nesting to depth 1..20000"),
+        g("like-patterns", 256, "every LIKE pattern of length <= 4 over { %, _, \\%, \\_, \\\\, a, b } (plain, and negated up to length 3) against nine short texts with and without the special characters and NULL: each must come back"),
+        g("long-names", 512, "failing statements whose error text echoes a table / column name of every length 1..300 made of 1-, 2-, 3- or 4-byte letters after 0-3 ASCII characters, and 100-1000-letter non-ASCII string literals and tokens"),
+        g("symbols", 1024, "all strings of length <= 3 (thorough: 4) over 24 symbols: quotes, parentheses, operators, digits, a letter, NUL, U+0080, U+00FF, space"),
+        g("mutations", 256, "every token-prefix, single-token deletion, duplication and substitution by each vocabulary token of 20 valid statements"),
+        g("typed-arith", 512, "every ordered pair of 17 operands (a column of each SQL type INT, BIGINT, UINT, BIGUINT, FLOAT, DOUBLE, TEXT, BOOLEAN and literals 0, 1, -1, 0.0, 2.5, NULL, 'a', 2147483647, 9223372036854775807) under + - * / % = < >= plus unary minus, ABS and SUM/AVG of every operand, in the select list and in WHERE, against each of 6 rows (zeros, ones, negatives, NULLs, the largest and the smallest value of every numeric type)"),
+        g("bytes-le2", 2048, "ALL strings of length <= 2 over the 256 byte values (as characters U+0000..U+00FF)"),
+        g("tokens", 1024, "all token sequences of length <= 3 (thorough: 4) over a 58-token vocabulary (statement keywords, one table, two columns, literals, punctuation)"),
     ];
     run_flat(
         "C16",
